@@ -48,7 +48,7 @@ def work(ctx, tier):
                     continue
                 outs = [[["exc", "res"][(i + j) % 2], gen.RETRYABLE[(i + j) % 4], None] for j in range(n)] + [["ok"]]
                 place = {"handler": hp, "before_sleep": bp, "sleeper": sp, "hooks": "none"}
-                sc = {"cfg": gen.mk_cfg(max_attempts=n + 1), "place": place, "bs_kind": ["sync", "async", "lambda"][i % 3], "sleeper_kind": ["async", "sync", "lambda", "callable"][(i // 3) % 4], "timeline": False, "poll": False,
+                sc = {"cfg": gen.mk_cfg(max_attempts=n + 1), "place": place, "bs_kind": ["sync", "async", "lambda"][i % 3], "sleeper_kind": ["async", "sync", "lambda", "callable", "falsy"][(i // 3) % 5], "timeline": False, "poll": False,
                       "calls": [gen.mk_call(outs, strat_values=[0.25, 0.5, 1.0, 0.0, 3.0][:n + 1], handler=list(seq) if hp != "none" else None)], "fault": None}
                 for e in (rig.ENTRIES[i % 20], rig.ENTRIES[(i + 7) % 20]):
                     _one(ctx, sc, e, stats, sample=(i < 3))
